@@ -141,11 +141,18 @@ static int nctx = 0;
 
 static srtp_cipher_type_t wrap128, wrap256;
 static const srtp_cipher_type_t *orig128, *orig256;
+#ifdef OPENSSL
+static srtp_cipher_type_t wrap192;          /* AES-ICM-192 exists in the OpenSSL configuration only */
+static const srtp_cipher_type_t *orig192;
+#endif
 
 static srtp_err_status_t w_alloc(srtp_cipher_t **c, size_t key_len, size_t tlen)
 {
     srtp_err_status_t s = orig128->alloc(c, key_len, tlen);
     if (s == srtp_err_status_ok) {
+#ifdef OPENSSL
+        if ((*c)->type == orig192) { (*c)->type = &wrap192; return s; }
+#endif
         (*c)->type = ((*c)->type == orig256) ? &wrap256 : &wrap128;
     }
     return s;
@@ -676,6 +683,12 @@ void api_init(void)
     wrap128.set_iv = wrap256.set_iv = w_set_iv;
     st = srtp_replace_cipher_type(&wrap128, SRTP_AES_ICM_128);
     if (!st) st = srtp_replace_cipher_type(&wrap256, SRTP_AES_ICM_256);
+#ifdef OPENSSL
+    orig192 = &srtp_aes_icm_192;
+    wrap192 = srtp_aes_icm_192;
+    wrap192.alloc = w_alloc; wrap192.dealloc = w_dealloc; wrap192.init = w_init; wrap192.set_iv = w_set_iv;
+    if (!st) st = srtp_replace_cipher_type(&wrap192, SRTP_AES_ICM_192);
+#endif
     if (st) { fprintf(stderr, "replace_cipher_type failed %d\n", st); exit(3); }
     tracking = 1;
 }
